@@ -604,10 +604,21 @@ def select__distinct_values(self: XPathFunction, context: ta.ContextType = None)
                     yield value
                     results.append(value)
 
-            elif all(value != x or isinstance(value, bool) is not isinstance(x, bool)
-                     for x in results):
+            elif all(not same(value, x) for x in results):
                 yield value
                 results.append(value)
+
+    def same(a: AtomicType, b: AtomicType) -> bool:
+        # xs:untypedAtomic values are compared as xs:string, strings with the collation
+        if isinstance(a, UntypedAtomic):
+            a = a.value
+        if isinstance(b, UntypedAtomic):
+            b = b.value
+        if isinstance(a, str) and isinstance(b, str):
+            return manager.eq(a, b)
+        elif isinstance(a, str) or isinstance(b, str):
+            return False
+        return isinstance(a, bool) is isinstance(b, bool) and a == b
 
     if len(self) < 2:
         collation = self.parser.default_collation
@@ -617,7 +628,7 @@ def select__distinct_values(self: XPathFunction, context: ta.ContextType = None)
     # Evaluate the operand before entering and leave the collation context before
     # yielding: the collation lock is process-wide and not reentrant.
     values = [x for x in self[0].atomization(context)]
-    with CollationManager(collation, self):
+    with CollationManager(collation, self) as manager:
         results = [x for x in distinct_values()]
     yield from results
 
@@ -659,8 +670,15 @@ def select__index_of(self: XPathFunction, context: ta.ContextType = None) -> Ite
         collation = self.get_argument(context, 2, required=True, cls=str)
 
     items = [x for x in self[0].atomization(context)]
+    if isinstance(value, UntypedAtomic):
+        value = value.value  # xs:untypedAtomic values are compared as xs:string
+
     def equal(item: AtomicType) -> bool:
-        if isinstance(item, bool) is not isinstance(value, bool):
+        if isinstance(item, UntypedAtomic):
+            item = item.value
+        if isinstance(item, str) is not isinstance(value, str):
+            return False
+        elif isinstance(item, bool) is not isinstance(value, bool):
             return False  # xs:boolean vs xs:boolean only
         elif isinstance(item, Decimal) and isinstance(value, float):
             return float(item) == value  # 'eq' promotes the xs:decimal operand
